@@ -395,6 +395,24 @@ fn make_frame(rng: &mut StdRng, kind: usize, target: Option<usize>) -> Frame {
                 Frame::BatchMessage(Bytes::new())
             }
         }
+        // a frame of every kind with a payload of exactly t bytes (the limit is the same for all of them)
+        Some(t) if t >= 64 && kind % 6 >= 2 => {
+            let name = |n: usize| TopicName::_create_unchecked("abc", &"t".repeat(n));
+            match kind % 6 {
+                // two length-prefixed strings (8 + 3 + 8 + n), retention policy (8), operations count (8)
+                2 => Frame::RegisterPublisher(PublisherPayload { topic: name(t - 35), retention_policy: rng.gen(), operations: vec![] }),
+                3 => Frame::RegisterSubscriber(SubscriberPayload { topic: name(t - 35), retention_policy: rng.gen(), operations: vec![] }),
+                4 => {
+                    if rng.gen_bool(0.5) {
+                        Frame::RegisterReplier(ReplierPayload { topic: name(t - 19) })
+                    } else {
+                        Frame::RegisterRequestor(RequestorPayload { topic: name(t - 19) })
+                    }
+                }
+                // code (4), length-prefixed message (8 + n)
+                _ => Frame::Error(ErrorPayload { code: rng.gen(), message: Bytes::from(rand_bytes(rng, t - 12)) }),
+            }
+        }
         Some(t) if t >= 9 && kind % 2 == 0 => {
             // bincode(MessagePayload{None, body}) = 1 + 8 + body
             Frame::Message(MessagePayload { headers: None, message: Bytes::from(rand_bytes(rng, t - 9)) })
